@@ -22,10 +22,14 @@ void GMGPolar::solve()
     t_solve_multigrid_iterations  = 0.0;
     t_check_convergence           = 0.0;
     t_check_exact_error           = 0.0;
-    VERIF_EV("SolveEnter", "\"normsSz\":%d,\"errsSz\":%d,\"fgs\":%d,\"tZero\":%d", (int)residual_norms_.size(),
-             (int)exact_errors_.size(), (int)full_grid_smoothing_,
+    VERIF_EV("SolveEnter",
+             "\"normsSz\":%d,\"errsSz\":%d,\"fgs\":%d,\"tZero\":%d,\"nu1\":%d,\"nu2\":%d,\"fmgIts\":%d,\"fmgKind\":%d,"
+             "\"kind\":%d,\"extMode\":%d,\"fmg\":%d",
+             (int)residual_norms_.size(), (int)exact_errors_.size(), (int)full_grid_smoothing_,
              (int)(t_solve_total == 0.0 && t_solve_initial_approximation == 0.0 && t_solve_multigrid_iterations == 0.0 &&
-                   t_check_convergence == 0.0 && t_check_exact_error == 0.0));
+                   t_check_convergence == 0.0 && t_check_exact_error == 0.0),
+             pre_smoothing_steps_, post_smoothing_steps_, FMG_iterations_, (int)FMG_cycle_, (int)multigrid_cycle_,
+             (int)extrapolation_, (int)FMG_);
 
     /* ---------------------------- */
     /* Initialize starting solution */
@@ -115,6 +119,7 @@ void GMGPolar::solve()
                 injection(start_level_depth, next_level.solution(), level.solution());
                 next_level.computeResidual(next_level.residual(), next_level.rhs(), next_level.solution());
                 extrapolatedResidual(start_level_depth, level.residual(), next_level.residual());
+                VERIF_OP2("XR", start_level_depth, level.residual(), next_level.residual());
             }
 
             switch (residual_norm_type_) {
@@ -274,6 +279,7 @@ void GMGPolar::initializeSolution()
         int start_level_depth = 0;
         Level& level          = levels_[start_level_depth];
         assign(level.solution(), 0.0); // Assign zero initial guess if not using FMG
+        VERIF_OP1("Zero", start_level_depth, level.solution());
         VERIF_EV("InitZero");
 
         /* Consider setting the boundary conditions u_D and u_D_Interior if DirBC_Interior to the initial solution */
@@ -309,6 +315,7 @@ void GMGPolar::initializeSolution()
 
         // Solve directly on the coarsest level
         FMG_level.solution() = FMG_level.rhs();
+        VERIF_OP2("Copy", FMG_start_level_depth, FMG_level.solution(), FMG_level.rhs());
         FMG_level.directSolveInPlace(FMG_level.solution()); // Direct solve on coarsest grid
         VERIF_EV("FMGDirect", "\"level\":%d", FMG_start_level_depth);
 
